@@ -230,7 +230,7 @@ def gen_prop(rng, nsrc, now):
     lo, hi = rng.choice(vals), rng.choice(vals)
     if lo is not None and hi is not None and lo > hi and rng.random() < 0.85:
         lo, hi = hi, lo
-    return {"t": "p", "src": f"a{rng.randrange(nsrc)}", "prio": rng.choice([-2, 0, 1, 1, 2, 3, 7]),
+    return {"t": "p", "src": f"a{rng.randrange(nsrc)}", "prio": rng.choice([-10, -2, -1, 0, 1, 1, 2, 3, 7, 10, 12, 100]),   # incl. different digit counts and negatives
             "pref": rng.choice(vals), "lo": lo, "hi": hi, "time": now}
 
 
